@@ -439,7 +439,7 @@ PROPS = {
     },
     "C15": {
         "theorems": {
-            "Solstat.Props.C15b": ["swapFile_invol", "offsets_fileNo_irrelevant", "lines_fileNo_irrelevant", "lines_fileNo_irrelevant_all"],
+            "Solstat.Props.C13b": ["ascending_ext", "lineSet_congr", "analyzeLines_order_irrelevant", "analyzeLines_perm"],
             "Solstat.Props.C16": ["entry_local"],
             "Solstat.Props.C15": ["no_global_state"],
             "Solstat.Props.C03": ["analyzeDir_exact"],
@@ -453,7 +453,6 @@ PROPS = {
     },
     "C11": {
         "theorems": {
-            "Solstat.Props.C18h": ["runs_append", "last_run_decides", "history_irrelevant", "failing_run_keeps_report"],
             "Solstat.Props.C11Sections": ["signatures_as_reviewed"],
             "Solstat.Props.C11": ["rb_section_lines", "rb_entries", "rb_block", "rb_blocksOf", "readBack_blocks", "triples_canon_perm",
                                   "rb_severityPart", "triples_by_severity", "C11_vulnerability",
@@ -490,7 +489,7 @@ PROPS = {
     },
     "C13": {
         "theorems": {
-            "Solstat.Props.C18h": ["runs_append", "last_run_decides", "history_irrelevant", "failing_run_keeps_report"],
+            "Solstat.Props.C13b": ["ascending_ext", "lineSet_congr", "analyzeLines_order_irrelevant", "analyzeLines_perm"],
             "Solstat.Props.Sort": ["sortBy_perm", "sortBy_sorted", "sortBy_eq_of_perm", "fileLe_preorder", "fileLe_antisymm", "sortFiles_perm"],
             "Solstat.Props.C13": ["canon_perm", "canon_files_perm", "optimizationReport_perm", "qaReport_perm", "vulnerabilityReport_perm",
                                   "all_variants_known", "fullReport_perm"],
@@ -533,7 +532,8 @@ PROPS = {
             ],
             "Solstat.Props.MapLoc": ["allNodes_mapLoc", "extract_mapLoc", "mapLoc_comp", "mapLoc_id", "mapLoc_leftInverse", "mapLoc_congr",
                                      "filterMap_detector_equivariant"],
-            "Solstat.Props.C17s": ["reported_in_tree", "reported_in_tree_all", "no_finding_outside_nodes"],
+            "Solstat.Props.C15b": ["swapFile_invol", "offsets_fileNo_irrelevant", "lines_fileNo_irrelevant", "lines_fileNo_irrelevant_all"],
+            "Solstat.Props.C17s": ["reported_in_tree", "reported_in_tree_all", "no_finding_outside_nodes", "reported_line_is_node_line"],
             "Solstat.Props.C17p": ["matchVersionAt_append", "scanVersion_append", "scanVersion_respace", "versionOfValue_respace"],
             "Solstat.Props.C17b": [
                 "listEquiv_of_fwd", "optEquiv_of_fwd", "contractFunctions_mapLoc", "storageVarTable_mapLoc", "stripSubscripts_mapLoc'",
